@@ -462,6 +462,53 @@ pub fn dispatch(op: &str, a: &[Arg]) -> Option<String> {
                 }
             }
         }
+        // entry_hiccup x<data> idx k chunk: like `entry` without password, read with read_to_end over a source that
+        // delivers at most `chunk` bytes per read and whose k-th read after the entry is opened returns
+        // ErrorKind::Interrupted once (read_to_end retries it, as std documents)
+        "entry_hiccup" => {
+            struct Hiccup {
+                inner: Cursor<Vec<u8>>,
+                armed: std::rc::Rc<std::cell::Cell<i64>>,
+                chunk: usize,
+            }
+            impl Read for Hiccup {
+                fn read(&mut self, b: &mut [u8]) -> std::io::Result<usize> {
+                    let c = self.armed.get();
+                    if c >= 0 {
+                        self.armed.set(c - 1);
+                        if c == 0 {
+                            return Err(std::io::Error::new(std::io::ErrorKind::Interrupted, "interrupted"));
+                        }
+                    }
+                    let n = std::cmp::min(b.len(), self.chunk);
+                    self.inner.read(&mut b[..n])
+                }
+            }
+            impl std::io::Seek for Hiccup {
+                fn seek(&mut self, p: std::io::SeekFrom) -> std::io::Result<u64> {
+                    self.inner.seek(p)
+                }
+            }
+            let armed = std::rc::Rc::new(std::cell::Cell::new(-1i64));
+            let src = Hiccup { inner: Cursor::new(a[0].b().to_vec()), armed: armed.clone(), chunk: std::cmp::max(1, a[3].n() as usize) };
+            let mut ar = match ZipArchive::new(src) {
+                Ok(ar) => ar,
+                Err(e) => return Some(format!("[OpenErr {}]", err_obs(&e))),
+            };
+            let r = match ar.by_index(a[1].n() as usize) {
+                Err(e) => format!("[Err {}]", err_obs(&e)),
+                Ok(mut f) => {
+                    let m = meta_obs(&f);
+                    armed.set(a[2].n() as i64);
+                    let mut acc = vec![];
+                    match f.read_to_end(&mut acc) {
+                        Ok(_) => format!("[Ok {} [Ok {}]]", m, ob(&acc)),
+                        Err(e) => format!("[Ok {} [Err {} {}]]", m, io_obs(&e), ob(&acc)),
+                    }
+                }
+            };
+            r
+        }
         // every entry through read_zipfile_from_stream, in order
         "stream_all" => {
             let data = a[0].b().to_vec();
